@@ -110,13 +110,13 @@ pub fn run(id: &'static str, tier: Tier, seed: u64) -> Option<Evidence> {
             );
             ev.assume("OS schedules are sampled, not enumerated, and are not a function of the seed (the seed fixes workloads and yield patterns only)");
             ev.assume("realistic failure modes of a forbid(unsafe) crate here are lock-discipline edits (try_lock, lock released between metric and terminator, per-thread buffers), which heavy contention exposes quickly");
-            let c = StressCampaign { name: "stress-shared-client", sinks: &[StressSink::Spy, StressSink::Spy, StressSink::Unix, StressSink::Udp, StressSink::QueuedSpy], judge_errors: false };
+            let c = StressCampaign { name: "stress-shared-client", sinks: &[StressSink::Spy, StressSink::Spy, StressSink::Unix, StressSink::Udp, StressSink::QueuedSpy], judge_errors: false, framing_only: false };
             if driver::run_random(&c, &ev, &ctx, scale(tier.pick(300, 3_000)), 2) {
                 let bf = sockets::BlockedFlushCampaign { name: "unix-flush-behind-blocked-emit" };
                 driver::run_random(&bf, &ev, &ctx, scale(tier.pick(6, 60)), 4);
             }
             if ev.violations().is_empty() && tier == Tier::Thorough {
-                let b = StressCampaign { name: "stress-blocked-receiver", sinks: &[StressSink::UnixBlockedReceiver], judge_errors: false };
+                let b = StressCampaign { name: "stress-blocked-receiver", sinks: &[StressSink::UnixBlockedReceiver], judge_errors: false, framing_only: false };
                 driver::run_random(&b, &ev, &ctx, scale(200), 2);
             }
             Some(ev)
@@ -459,10 +459,10 @@ fn run_queue(id: &'static str, tier: Tier, seed: u64, ctx: &Ctx, sh: u32) -> Evi
     let (level, rule) = match id {
         "C08" => ("exploration", "generated histories {emit on handle h, clone, drop handle, let the wrapped sink finish one metric with ok/err/panic} on bounded (1,2,3,5,8,16) and unbounded queues over a gated wrapped sink; the harness owns the worker's schedule through the gate and a FIFO spec model predicts every hand-over (exactly once, acceptance order); liveness = within W of a state in which the model proves the hand-over due. Concurrent mode: 2..8 producers on their own clones, per-producer acknowledged sequence must equal the delivered one (OS schedules sampled). Non-trivial: a handle dropped while another handle emits later, or >=2 handles emitting alternately; concurrent: producers interleaved in the sink log; distinct by case hash."),
         "C09" => ("exploration", "endings: capacity x occupancy at the final drop (0..=capacity, incl. completely full with one metric in the worker's hand) x outcome pattern {ok,err,panic}^k x position of the drop relative to steps; all accepted metrics handed over in order, wrapped sink dropped (Drop observed) within W, every drop(handle) returns while the gate is held closed, nothing after release. The space capacity<=3 x occupancy x {ok,err,panic}^k is enumerated exhaustively. Non-trivial: final drop with >=1 metric still queued; distinct by case hash."),
-        "C10" => ("exploration", "histories with the gate closed for long stretches (no handle drops): emit returns within W with Ok(len) iff model occupancy < capacity else Err; occupancy never exceeds capacity; unbounded never refuses; wrapped sink never runs on a producer thread; scripted errors/panics never surface. Concurrent closed-gate mode: min(attempts, cap) <= accepted <= cap+1. Non-trivial: a bounded history that reaches occupancy == capacity and later accepts again; distinct by case hash."),
-        "C11" => ("fault_enumeration", "outcome patterns over {ok,err,panic} with emits before/between steps and the final drop at a generated point; all non-panicking accepted metrics delivered once in order, panicking one not re-delivered, later emits still accepted and delivered, panics() never exceeds and within W reaches the number of injected panics; {ok,err,panic}^n for n<=5 x stop position enumerated exhaustively. Non-trivial: >=2 consecutive panics, or a panic on the first/last queued metric, or a panic with a stop pending; distinct by case hash."),
+        "C10" => ("exploration", "histories with the gate closed for long stretches (no handle drops): emit returns within W with Ok(len) iff model occupancy < capacity else Err; occupancy never exceeds capacity; unbounded never refuses; wrapped sink never runs on a producer thread; scripted errors/panics never surface. Concurrent closed-gate mode: min(attempts, cap) <= accepted <= cap+1. Panic storm: 1..6 producers emit into a queue with room for every attempt while the wrapped sink panics/fails in a generated repeating pattern (worker threads unwind and are replaced): every emit returns Ok(len) promptly. Non-trivial: a bounded history that reaches occupancy == capacity and later accepts again; distinct by case hash."),
+        "C11" => ("fault_enumeration", "outcome patterns over {ok,err,panic} with emits before/between steps and the final drop at a generated point; all non-panicking accepted metrics delivered once in order, panicking one not re-delivered, later emits still accepted and delivered, panics() never exceeds and within W reaches the number of injected panics; {ok,err,panic}^n for n<=5 x stop position enumerated exhaustively. Panic storm: concurrent producers against a repeating outcome pattern, per-producer delivery and panics() exact afterwards. Non-trivial: >=2 consecutive panics, or a panic on the first/last queued metric, or a panic with a stop pending; distinct by case hash."),
         "C15" => ("exploration", "queue histories with accepted and refused emits, steps, panics, clones; after every operation (a quiescent point: the worker holds the next metric or nothing is due) submitted == #Ok emits, drained == #hand-overs, queued == their difference. Sampler mode: producers + a thread reading queued() then submitted(): queued <= submitted and <= attempts. Non-trivial: history with >=1 refused emit and >=1 panic; sampler runs with interleaving or a transient drained > submitted observed; distinct by case hash."),
-        _ => ("fault_enumeration", "outcome patterns {ok, err(kind, token)}^n with and without a configured handler: each error is followed, before the next metric is entered, by exactly one handler call carrying that error, on the worker thread; never for Ok; without a handler later metrics are delivered in order. {ok,err}^n for n<=8 enumerated exhaustively. Non-trivial: >=2 errors with an Ok between them; distinct by case hash."),
+        _ => ("fault_enumeration", "outcome patterns {ok(len), ok(0), err(kind, token)}^n with and without a configured handler: each error is followed, before the next metric is entered, by exactly one handler call carrying that error, on the worker thread; never for an accepted metric (Ok(len) or the Ok(0) that NopMetricSink-like sinks return); without a handler later metrics are delivered in order. {ok,ok0,err}^n for n<=8 enumerated exhaustively. Non-trivial: >=2 errors with an Ok between them; distinct by case hash."),
     };
     let mut ev = Evidence::new(id, level, tier, seed, rule);
     ev.assume("liveness ('eventually') is decided as: within W (default 4 s) of a state in which the spec model proves the event due and the harness holds every gate that could delay it");
@@ -498,14 +498,21 @@ fn run_queue(id: &'static str, tier: Tier, seed: u64, ctx: &Ctx, sh: u32) -> Evi
         }
         "C10" => {
             let c = ConcCampaign { name: "queue-isolation-concurrent", focus: QRule::Isolation };
-            if driver::run_random(&c, &ev, ctx, scale(tier.pick(100, 1_500)), 4) {
-                driver::run_random(&crate::queue::concurrent::LastSlotRace, &ev, ctx, scale(tier.pick(60, 1_000)), 4);
+            if driver::run_random(&c, &ev, ctx, scale(tier.pick(100, 1_500)), 4)
+                && driver::run_random(&crate::queue::concurrent::LastSlotRace, &ev, ctx, scale(tier.pick(60, 1_000)), 4)
+            {
+                // producers emit while worker threads unwind from panics and are replaced
+                let ps = crate::queue::concurrent::PanicStorm { name: "queue-isolation-panic-storm", focus: QRule::Isolation };
+                driver::run_random(&ps, &ev, ctx, scale(tier.pick(80, 1_500)), 4);
             }
         }
         "C11" => {
             let c = QueueCampaign::new("queue-panics-enumerated", QRule::Panics, QGenKind::Endings);
             let cases = pattern_enumeration(&all3, tier.pick(4, 6), &[None, Some(2), Some(8)], true);
-            driver::run_list(&c, &ev, ctx, cases.into_iter(), sh);
+            if driver::run_list(&c, &ev, ctx, cases.into_iter(), sh) {
+                let ps = crate::queue::concurrent::PanicStorm { name: "queue-panic-storm", focus: QRule::Panics };
+                driver::run_random(&ps, &ev, ctx, scale(tier.pick(60, 1_000)), 4);
+            }
             ev.set_extra("exhaustive_part", serde_json::json!("{ok,err,panic}^n for n<=4 (thorough: 6) x final-drop position x capacities {unbounded,2,8} x handler on/off: enumerated completely"));
             ev.set_exhaustive(false);
         }
@@ -515,9 +522,9 @@ fn run_queue(id: &'static str, tier: Tier, seed: u64, ctx: &Ctx, sh: u32) -> Evi
         }
         "C16" => {
             let c = QueueCampaign::new("queue-handler-enumerated", QRule::Handler, QGenKind::Endings);
-            let cases = pattern_enumeration(&[StepOut::Ok, StepOut::Err(3)], tier.pick(7, 8), &[None], false);
+            let cases = pattern_enumeration(&[StepOut::Ok, StepOut::Err(3), StepOut::OkZero], tier.pick(6, 8), &[None], false);
             driver::run_list(&c, &ev, ctx, cases.into_iter(), sh);
-            ev.set_extra("exhaustive_part", serde_json::json!("{ok,err}^n for n<=7 (thorough: 8) x handler on/off: enumerated completely"));
+            ev.set_extra("exhaustive_part", serde_json::json!("{ok(len), ok(0), err}^n for n<=6 (thorough: 8) x handler on/off: enumerated completely"));
             ev.set_exhaustive(false);
         }
         _ => {}
@@ -588,6 +595,23 @@ fn run_writer(id: &'static str, tier: Tier, seed: u64, ctx: &Ctx, sh: u32) -> Ev
             return ev;
         }
     }
+    if id == "C05" {
+        // the shape of every datagram must also hold when several threads share the sink
+        let sc = crate::stress::StressCampaign {
+            name: "stress-framing",
+            sinks: &[
+                crate::stress::StressSink::Unix,
+                crate::stress::StressSink::Udp,
+                crate::stress::StressSink::UnixBlockedReceiver,
+                crate::stress::StressSink::Spy,
+            ],
+            judge_errors: false,
+            framing_only: true,
+        };
+        if !driver::run_random(&sc, &ev, ctx, scale(tier.pick(40, 600)), 2) {
+            return ev;
+        }
+    }
     if id == "C06" {
         // flush Ok => written, also under concurrency: flush markers on the spy channel and a flush
         // issued behind an emit that is blocked inside a Unix sink
@@ -595,6 +619,7 @@ fn run_writer(id: &'static str, tier: Tier, seed: u64, ctx: &Ctx, sh: u32) -> Ev
             name: "stress-flush-markers",
             sinks: &[crate::stress::StressSink::Spy],
             judge_errors: false,
+            framing_only: false,
         };
         if !driver::run_random(&sc, &ev, ctx, scale(tier.pick(40, 600)), 2) {
             return ev;
@@ -610,6 +635,7 @@ fn run_writer(id: &'static str, tier: Tier, seed: u64, ctx: &Ctx, sh: u32) -> Ev
             name: "stress-no-spurious-errors",
             sinks: &[crate::stress::StressSink::Spy, crate::stress::StressSink::Unix],
             judge_errors: true,
+            framing_only: false,
         };
         if !driver::run_random(&sc, &ev, ctx, scale(tier.pick(30, 600)), 2) {
             return ev;
@@ -686,10 +712,13 @@ pub fn replay(id: &'static str, campaign: &str, case: &serde_json::Value, tier: 
     try_camp!(FmtCampaign::new("fmt-panic", Focus::Panic));
     try_camp!(WriterCampaign::new("mlw-panic", Rule::Panic, Seam::Mlw, gen_default(30, true)));
     try_camp!(WriterCampaign::new("mlw-panic-tinycap", Rule::Panic, Seam::MlwTiny, gen_default(20, true)));
-    try_camp!(crate::stress::StressCampaign { name: "stress-shared-client", sinks: &[crate::stress::StressSink::Spy], judge_errors: false });
-    try_camp!(crate::stress::StressCampaign { name: "stress-blocked-receiver", sinks: &[crate::stress::StressSink::UnixBlockedReceiver], judge_errors: false });
-    try_camp!(crate::stress::StressCampaign { name: "stress-no-spurious-errors", sinks: &[crate::stress::StressSink::Spy], judge_errors: true });
-    try_camp!(crate::stress::StressCampaign { name: "stress-flush-markers", sinks: &[crate::stress::StressSink::Spy], judge_errors: false });
+    try_camp!(crate::stress::StressCampaign { name: "stress-shared-client", sinks: &[crate::stress::StressSink::Spy], judge_errors: false, framing_only: false });
+    try_camp!(crate::stress::StressCampaign { name: "stress-blocked-receiver", sinks: &[crate::stress::StressSink::UnixBlockedReceiver], judge_errors: false, framing_only: false });
+    try_camp!(crate::stress::StressCampaign { name: "stress-no-spurious-errors", sinks: &[crate::stress::StressSink::Spy], judge_errors: true, framing_only: false });
+    try_camp!(crate::stress::StressCampaign { name: "stress-framing", sinks: &[crate::stress::StressSink::Spy], judge_errors: false, framing_only: true });
+    try_camp!(crate::queue::concurrent::PanicStorm { name: "queue-isolation-panic-storm", focus: QRule::Isolation });
+    try_camp!(crate::queue::concurrent::PanicStorm { name: "queue-panic-storm", focus: QRule::Panics });
+    try_camp!(crate::stress::StressCampaign { name: "stress-flush-markers", sinks: &[crate::stress::StressSink::Spy], judge_errors: false, framing_only: false });
     try_camp!(sockets::BlockedFlushCampaign { name: "unix-flush-behind-blocked-emit" });
     #[cfg(cadence_verif)]
     {
